@@ -1610,13 +1610,29 @@ def t_render( ctx ):
         return res
     fm = pmatch( frac[0].value, "( '%%.*f' %% ( %s, %s ))[-%s-1:]" % ( SUB, VALUE, SUB )) or pmatch( frac[0].value, "( '%%.*f' %% ( %s, %s ))[-( %s + 1 ):]" % ( SUB, VALUE, SUB )) \
         or pmatch( frac[0].value, "( '%%.*f' %% ( %s, %s ))[-1 - %s:]" % ( SUB, VALUE, SUB ))
+    fm = fm or pmatch( frac[0].value, "( '%%.*f' %% ( %s, %s %% 1 ))[-%s-1:]" % ( SUB, VALUE, SUB )) or pmatch( frac[0].value, "( '%%.*f' %% ( %s, %s %% 1.0 ))[-%s-1:]" % ( SUB, VALUE, SUB ))
     if fm is not None:
-        res.ok( src, frac[0], "fraction = last digits+1 characters ( '.ddd' ) of '%.*f' % ( digits, rounded value )" )
+        res.ok( src, frac[0], "fraction = last digits+1 characters ( '.ddd' ) of '%.*f' % ( digits, rounded value [mod 1] )" )
     else:
         used = names_in( frac[0].value ) | { d for d in attrs_in( frac[0].value ) }
         why = 'the fraction is taken from the UNROUNDED value while the seconds come from the rounded one' if 'value' in attrs_in( frac[0].value ) and VALUE not in names_in( frac[0].value ) else \
               'the fraction must be the last digits+1 characters of the fixed-point rendering of the SAME rounded value the seconds come from'
         res.bad( src, frac[0], frac[0].value, why )
+    # sign safety: the calendar fields come from fromtimestamp() (floor semantics), so the fraction appended must be value - floor( value ):
+    # the fraction expression is evaluated on instants before the epoch and compared with that
+    fe = frac[0].value
+    try:
+        from .fold import fold as _fold
+        got_ = [ _fold( fe, { VALUE: v_, SUB: 3 } ) for v_ in ( -1.25, -86400.125, 1.25 ) ]
+        want_ = [ ( '%.3f' % ( v_ % 1.0 ))[-4:] for v_ in ( -1.25, -86400.125, 1.25 ) ]
+    except NoFold as exc:
+        raise AnalysisError( 'render: fraction expression outside the modelled subset: %s' % str( exc )[:80] )
+    res.cells += 3
+    if got_ == want_:
+        res.ok( src, frac[0], 'the fraction is that of value - floor( value ), also for instants before the epoch (3 samples)' )
+    else:
+        res.bad( src, frac[0], 'fraction of -1.25 rendered as %r (calendar fields say 23:59:58, so it must be %r)' % ( got_[0], want_[0] ),
+                 'for a negative value the decimal digits of the value are not the fraction above the floored second: 1969-12-31 23:59:58.750 is rendered ...58.250 and parses back to a different instant' )
     g = src.parent.get( frac[0] )
     if isinstance( g, ast.If ) and pmatch( g.test, SUB ) is not None:
         res.ok( src, g, 'no fraction when 0 digits are requested' )
@@ -1744,4 +1760,45 @@ def d_unpack( ctx ):
                      'when %s holds no further %r the split yields ONE part and the unpack raises ValueError: e.g. d["l[a.b]"] (an index expression containing a dot as the LAST segment) cannot be looked up although d["l[a.b].x"] can' % ( X, sep ))
     if n < 2:
         raise AnalysisError( 'dotdict.py: split( sep, 1 ) unpacks not found (%d)' % n )
+    return res
+
+
+@rule( 'T-ZONETOKEN', props=( 'C17', ), floor=2 )
+def t_zonetoken( ctx ):
+    """the zone designator render() appends must survive datetime_from_string's tokenisation: the separator table ( ':', '-', '.' -> blank ) may be
+    applied to the date and time fields only - applied to the whole text it tears apart every designator that contains such a character (a
+    numeric offset '-0700' / '-03', a zone name like America/Port-au-Prince) and reads the pieces as date / time fields"""
+    res = Result( 'T-ZONETOKEN' )
+    src = ctx.src( TIMES )
+    ts = src.class_assign( 'timestamp', '_timeseps' )
+    frm = None
+    for c in ast.walk( ts.value ):
+        if isinstance( c, ast.Call ) and isinstance( c.func, ast.Attribute ) and c.func.attr == 'maketrans' and len( c.args ) == 2:
+            frm = try_fold( c.args[0] )
+    if not isinstance( frm, str ):
+        raise AnalysisError( 'timestamp._timeseps: separator table not recognised' )
+    ps = src.get( 'timestamp.datetime_from_string' )
+    M = Matcher()
+    whole = M.find( ps, '_terms = str( s ).translate( cls._timeseps ).split()' )
+    rn = src.get( 'timestamp.render' )
+    emits = []
+    for c in ast.walk( rn ):
+        if isinstance( c, ast.Call ) and isinstance( c.func, ast.Attribute ) and c.func.attr == 'strftime' and c.args:
+            f = try_fold( c.args[0] )
+            if isinstance( f, str ) and '%z' in f:
+                emits.append(( c, 'a numeric UTC offset ( %z: always begins with + or - )' ))
+            elif isinstance( f, str ) and '%Z' in f:
+                emits.append(( c, 'the zone abbreviation ( %Z: numeric, e.g. "-03", for many zones of the current tz database )' ))
+        if isinstance( c, ast.Attribute ) and c.attr == 'zone' and 'tzinfo' in txt( c ):
+            emits.append(( c, 'the full zone name ( e.g. America/Port-au-Prince, Etc/GMT-5 )' ))
+    if len( emits ) < 2:
+        raise AnalysisError( 'timestamp.render: zone designator branches not found' )
+    hit = sorted( set( frm ) & set( '-+:.' ))
+    if whole is not None and hit:
+        res.bad( src, whole, 'datetime_from_string translates %r to blanks in the WHOLE text, zone designator included' % ''.join( hit ),
+                 'render() can append %s: the parser splits such a designator at its %r and takes the pieces for date / time fields - the text is rejected, or (e.g. "00:00:00 -03" without milliseconds) silently read as a different instant' % (
+                     '; '.join( w for _, w in emits ), hit[0] ))
+    else:
+        res.ok( src, ps, 'the separator table is not applied to the zone designator' )
+    res.ok( src, rn, 'render() zone designator forms: %d' % len( emits ), nontrivial=False )
     return res
